@@ -72,32 +72,43 @@ pub fn choice(input: Input<'_>) -> ParserResult<'_, ASN1Type> {
     map(
         preceded(
             skip_ws_and_comments(tag(CHOICE)),
-            in_braces((
-                many0(terminated(
+            in_braces(|input| {
+                let (input, root) = many0(terminated(
                     skip_ws_and_comments(choice_option),
                     optional_comma,
-                )),
-                opt(terminated(
+                ))
+                .parse(input)?;
+                let (input, marker) = opt(terminated(
                     extension_marker,
                     opt(skip_ws_and_comments(char(COMMA))),
-                )),
-                opt(map(
-                    many0(alt((
-                        map(
-                            terminated(skip_ws_and_comments(choice_option), optional_comma),
-                            |extension| vec![extension],
-                        ),
-                        terminated(
-                            in_brackets(in_brackets(many1(terminated(
-                                skip_ws_and_comments(choice_option),
+                ))
+                .parse(input)?;
+                // Extension additions follow an extension marker only (see `sequence`).
+                let (input, additions) = if marker.is_some() {
+                    map(
+                        many0(alt((
+                            map(
+                                terminated(skip_ws_and_comments(choice_option), optional_comma),
+                                |extension| vec![extension],
+                            ),
+                            terminated(
+                                in_brackets(in_brackets(many1(terminated(
+                                    skip_ws_and_comments(choice_option),
+                                    optional_comma,
+                                )))),
                                 optional_comma,
-                            )))),
-                            optional_comma,
-                        ),
-                    ))),
-                    |extensions| extensions.into_iter().flatten().collect(),
-                )),
-            )),
+                            ),
+                        ))),
+                        |extensions: Vec<Vec<ChoiceOption>>| {
+                            extensions.into_iter().flatten().collect::<Vec<_>>()
+                        },
+                    )
+                    .parse(input)?
+                } else {
+                    (input, vec![])
+                };
+                Ok((input, (root, marker, Some(additions))))
+            }),
         ),
         |m| ASN1Type::Choice(m.into()),
     )
